@@ -46,8 +46,8 @@ def main():
         flags = meta.get("demo_flags", "-g -O1")
         for which, base in (("with_change", wt), ("without_change", "/repo")):
             exe = "/tmp/cw-%s-demo-%s" % (sid, which)
-            rc, out = sh("gcc %s %s -I %s/include -I %s/_build/generated/include %s/_build/libaws-c-common.a -lpthread -ldl -lm -o %s" %
-                         (flags, os.path.join(d, demo), base, base, base, exe))
+            rc, out = sh("gcc %s %s -I %s/source -I %s/include -I %s/_build/generated/include %s/_build/libaws-c-common.a -lpthread -ldl -lm -o %s" %
+                         (flags, os.path.join(d, demo), base, base, base, base, exe))
             if rc != 0:
                 conf["demo_" + which] = {"build_failed": out[-800:]}
                 continue
@@ -60,8 +60,9 @@ def main():
                 runs.append({"exit": rc, "tail": out[-300:]})
             conf["demo_" + which] = runs
             os.unlink(exe)
-        fails_with = all(r["exit"] != 0 for r in conf.get("demo_with_change", []) if isinstance(r, dict) and "exit" in r) and conf.get("demo_with_change")
-        passes_without = all(r["exit"] == 0 for r in conf.get("demo_without_change", []) if isinstance(r, dict) and "exit" in r) and conf.get("demo_without_change")
+        w, wo = conf.get("demo_with_change"), conf.get("demo_without_change")
+        fails_with = isinstance(w, list) and w and all(r["exit"] != 0 for r in w)
+        passes_without = isinstance(wo, list) and wo and all(r["exit"] == 0 for r in wo)
         conf["demo_fails_with_change"] = bool(fails_with)
         conf["demo_passes_without_change"] = bool(passes_without)
     finally:
